@@ -251,6 +251,46 @@ theorem strong_subset_all (ds : List Disc) (v : String)
     · simp at hvj
   · simp at hvi
 
+/-- `get_input_couplings` / `get_output_couplings`: the (strictly increasing) names of the
+    discipline's inputs / outputs that belong to the given coupling list. -/
+theorem io_couplings_spec (ds : List Disc) (i : Nat) (couplings : List String) :
+    ((inputCouplings ds i couplings).Pairwise (· < ·) ∧
+      ∀ v, v ∈ inputCouplings ds i couplings ↔ v ∈ inputsAt ds i ∧ v ∈ couplings) ∧
+    ((outputCouplings ds i couplings).Pairwise (· < ·) ∧
+      ∀ v, v ∈ outputCouplings ds i couplings ↔ v ∈ outputsAt ds i ∧ v ∈ couplings) := by
+  refine ⟨⟨sorted_sortDedup _, fun v => ?_⟩, ⟨sorted_sortDedup _, fun v => ?_⟩⟩
+  · simp [inputCouplings, mem_sortDedup, List.mem_filter]
+  · simp [outputCouplings, mem_sortDedup, List.mem_filter]
+
+/-- `find_discipline`: the first discipline of the listing producing the output; it fails
+    (`ValueError`) exactly when no discipline produces it. -/
+theorem find_discipline_spec (ds : List Disc) (v : String) :
+    (∀ i, findDiscipline ds v = some i →
+      i < ds.length ∧ v ∈ outputsAt ds i ∧ ∀ j < i, v ∉ outputsAt ds j) ∧
+    (findDiscipline ds v = none ↔ ∀ i < ds.length, v ∉ outputsAt ds i) := by
+  unfold findDiscipline
+  constructor
+  · intro i hi
+    rw [List.find?_eq_some_iff_append] at hi
+    obtain ⟨hv, as, bs, hsplit, hnot⟩ := hi
+    have hmem : i ∈ List.range ds.length := by rw [hsplit]; simp
+    refine ⟨List.mem_range.1 hmem, by simpa using hv, ?_⟩
+    intro j hj
+    -- j < i is in the prefix `as` of the range
+    have hsorted : (List.range ds.length).Pairwise (· < ·) := List.pairwise_lt_range
+    rw [hsplit, List.pairwise_append] at hsorted
+    have hjr : j ∈ List.range ds.length := List.mem_range.2 (by have := List.mem_range.1 hmem; omega)
+    rw [hsplit] at hjr
+    rcases List.mem_append.1 hjr with hja | hjb
+    · simpa using hnot j hja
+    · exfalso
+      rcases List.mem_cons.1 hjb with rfl | hjb
+      · omega
+      · have := (List.pairwise_cons.1 hsorted.2.1).1 j hjb
+        omega
+  · rw [List.find?_eq_none]
+    simp [List.mem_range]
+
 /-! ### Composition is exact (`chain_equals_monolithic`) -/
 
 /-- The flattened execution sequence is a topological order of the groups: no discipline of a
@@ -505,6 +545,26 @@ theorem init_order_spec (ds : List Disc) (defaults : Nat → List String) (avail
   · exact initOrder_perm ds defaults _ _ avail order List.nodup_range h
   · exact initOrder_valid ds defaults _ _ avail order h
   · exact initOrder_complete ds defaults _ _ avail (by simp) hex
+
+/-- Closing the loop for `MDOChain` on affine disciplines: if the data gives a value to every
+    input of the chain (`chainGrammar`, what `MDOChain` requires/defaults), every discipline
+    finds its inputs — the availability hypothesis of `lin_chain_equals_monolithic` holds. -/
+theorem chain_inputs_make_available (lds : List WFLin) (e : Env)
+    (hreads : ∀ d ∈ lds, ∀ k ∈ d.1.reads, k ∈ d.1.disc.inputs)
+    (houts : ∀ d ∈ lds, ∀ k ∈ d.1.disc.outputs, k ∈ d.1.writes)
+    (hdef : ∀ k ∈ (chainGrammar (lds.map (fun d => d.1.disc))).1, (e.val k).isSome) :
+    InputsAvailable lds e := by
+  intro pre d post hsplit k hk
+  have hd : d ∈ lds := by rw [hsplit]; simp
+  have hsplit' : lds.map (fun d => d.1.disc) =
+      pre.map (fun d => d.1.disc) ++ d.1.disc :: post.map (fun d => d.1.disc) := by
+    rw [hsplit]; simp
+  rcases chainGrammar_inputs_suffice _ (fun k => (e.val k).isSome = true) hdef _ _ _ hsplit' k
+      (hreads d hd k hk) with h | ⟨d', hd', hk'⟩
+  · exact Or.inl h
+  · obtain ⟨x, hx, rfl⟩ := List.mem_map.1 hd'
+    have hxl : x ∈ lds := by rw [hsplit]; simp [hx]
+    exact Or.inr ⟨x, hx, houts x hxl k hk'⟩
 
 /-! ### The listing order does not matter (`order_invariance`) -/
 
